@@ -477,11 +477,10 @@ class simplify_chained_calls(FuncADLNodeTransformer):
 
         Only works if index is a number
         """
-        # Get the value out - this is due to supporting python 3.7-3.9
-        n = s.value
-        if n is None:
+        # Anything but a plain, non-negative, integer constant is left as is
+        if not (isinstance(s, ast.Constant) and type(s.value) is int and s.value >= 0):
             return ast.Subscript(v, s, ast.Load())  # type: ignore
-        assert isinstance(n, int), "Programming error: index is not an integer in tuple subscript"
+        n = s.value
         if n >= len(v.elts):
             raise FuncADLIndexError(
                 f"Attempt to access the {n}th element of a tuple only"
@@ -496,9 +495,10 @@ class simplify_chained_calls(FuncADLNodeTransformer):
 
         Only works if index is a number
         """
-        n = s.value
-        if n is None:
+        # Anything but a plain, non-negative, integer constant is left as is
+        if not (isinstance(s, ast.Constant) and type(s.value) is int and s.value >= 0):
             return ast.Subscript(v, s, ast.Load())  # type: ignore
+        n = s.value
         if n >= len(v.elts):
             raise FuncADLIndexError(
                 f"Attempt to access the {n}th element of a tuple"
@@ -511,18 +511,20 @@ class simplify_chained_calls(FuncADLNodeTransformer):
         """
         {t1, t2, t3...}[1] => t2
         """
-        sub = s.value
-        assert isinstance(sub, (str, int))
-        return self.visit_Subscript_Dict_with_value(v, sub)
+        if not (isinstance(s, ast.Constant) and isinstance(s.value, (str, int))):
+            return ast.Subscript(v, s, ast.Load())  # type: ignore
+        return self.visit_Subscript_Dict_with_value(v, s.value)
 
     def visit_Subscript_Dict_with_value(self, v: ast.Dict, s: Union[str, int]):
         "Do the lookup for the dict"
-        for index, value in enumerate(v.keys):
-            assert isinstance(value, ast.Constant)
-            if value.value == s:
-                return copy.deepcopy(v.values[index])
+        # We can only tell which entry is meant if every key is a constant
+        if all(isinstance(k, ast.Constant) for k in v.keys):
+            for index, value in enumerate(v.keys):
+                assert isinstance(value, ast.Constant)
+                if value.value == s:
+                    return copy.deepcopy(v.values[index])
 
-        return ast.Subscript(v, s, ast.Load())  # type: ignore
+        return ast.Subscript(v, ast.Constant(value=s), ast.Load())
 
     def visit_Subscript_Of_First(self, first: ast.expr, s):
         """
